@@ -32,7 +32,7 @@ def build():
          ensures=[E('val', 'r.0@ == 1 - self.0@')])
     # ---- ZeroableGeneration
     u.fn(F, ['impl ZeroableGeneration', 'fn id'], ret='r', props=P, ensures=[E('val', 'r == zid(self)')],
-         closures={'|gen|': dict(params='gen: Generation', ret='r__: i32', ensures=[('id', 'r__ == gen.0@')])})
+         closures={'map:|gen|': dict(params='gen: Generation', ret='r__: i32', ensures=[('id', 'r__ == gen.0@')])})
     u.fn(F, ['impl ZeroableGeneration', 'fn is_alive'], ret='r', props=P, ensures=[E('val', 'r == (zid(self) > 0)')])
     u.fn(F, ['impl ZeroableGeneration', 'fn die'], props=P, rules=[N5],
          requires=[E('alive', 'zid(*old(self)) > 0')],
@@ -60,7 +60,7 @@ def build():
            E('last', 'old(self)@.len() > 0 ==> r == Some(old(self)@.last()) && final(self)@ == old(self)@.drop_last()')]
     u.fn(F, ['impl EntityCache', 'fn pop_atomic'], ret='r', props='C01 C17 C20', mut_self=True, mut_fields=['len'],
          requires=[E('wf', 'old(self).wf()')], ensures=POP,
-         closures={'|x|': dict(params='x: usize', ret='r__: Index', requires=[('inrange', '0 < x <= self.cache@.len()')], ensures=[('slot', 'r__ == self.cache@[x - 1]')])})
+         closures={'map:|x|': dict(params='x: usize', ret='r__: Index', requires=[('inrange', '0 < x <= self.cache@.len()')], ensures=[('slot', 'r__ == self.cache@[x - 1]')])})
     u.fn(F, ['impl EntityCache', 'fn pop'], ret='r', props='C01 C17 C20',
          requires=[E('wf', 'old(self).wf()')], ensures=POP)
     u.fn(F, ['impl EntityCache', 'fn maintain'], props='C01 C17 C20',
@@ -89,7 +89,7 @@ def build():
                          ensures=[('val', 'r__.0@ == (if gen.0@ > 0 { gen.0@ as int } else { 1 - gen.0@ })')])
     u.fn(F, ['impl Allocator', 'fn generation'], ret='r', props='C01 C02',
          ensures=[E('val', 'r == (if (id as int) < self.generations@.len() { self.generations@[id as int].0 } else { None })')],
-         closures={'|gen|': dict(params='gen: ZeroableGeneration', ret='r__: Option<Generation>', ensures=[('field', 'r__ == gen.0')])})
+         closures={'and_then:|gen|': dict(params='gen: ZeroableGeneration', ret='r__: Option<Generation>', ensures=[('field', 'r__ == gen.0')])})
     u.fn(F, ['impl Allocator', 'fn entity'], ret='r', props='C02', rules=[GEN_ONE_CLOSURE],
          requires=[E('wf', 'self.wf()'), E('headroom', 'self.headroom_n(2)')],
          ensures=[E('id', 'r.0 == id'), E('gen', 'r.1.0@ == self.cur_gen(id)')])
@@ -117,7 +117,7 @@ def build():
          rules=[GEN_ONE_CLOSURE],
          requires=[E('wf', 'old(self).wf()'), E('headroom', 'old(self).headroom()')],
          ensures=CREATE_ENS('create_deferred'),
-         closures={'|gen|': RAISE_CLOSURE},
+         closures={'map:|gen|': RAISE_CLOSURE},
          hints=[('before_tail', None, 'proof { lemma_alloc(old(self), &*self, id, false); }')])
     u.fn(F, ['impl Allocator', 'fn allocate'], ret='r', props='C01 C02 C17 C20',
          requires=[E('wf', 'old(self).wf()'), E('headroom', 'old(self).headroom()')],
@@ -197,7 +197,7 @@ def build():
              ensures=[E('mask', 'r.0@ == self_.alloc.alive@ + self_.alloc.raised@'), E('value', 'r.1 == self_')])
         u.fn(F, [hdr, 'fn get'], ret='r', props='C02 C06', free='entities_%s_get' % nm, key='EntitiesRes_%s::get' % nm,
              rules=[GEN_ONE_CLOSURE, ('N12', r"fn get(<'next>)?\(", "fn get<'a, 'next>(")],
-             requires=GET_REQ('v' if nm == 'par_join' else 'old(v)'), ensures=GET_ENS('v' if nm == 'par_join' else 'old(v)'), closures={'|gen|': RAISE_CLOSURE},
+             requires=GET_REQ('v' if nm == 'par_join' else 'old(v)'), ensures=GET_ENS('v' if nm == 'par_join' else 'old(v)'), closures={'map:|gen|': RAISE_CLOSURE},
              hints=[('start', None, 'proof { lemma_gid_facts(&v.alloc, id); }')])
     u.fn(F, ['impl Allocator', 'fn merge'], ret='r', props='C01 C02',
          requires=[E('wf', 'old(self).wf()'), E('headroom', 'old(self).headroom()')],
